@@ -96,7 +96,32 @@ exit_keeps_outer = Contract(
          "and whose body (by induction hypothesis) left at least `pre` active, leaves at least `pre` active on exit",
 )
 
-CONTRACTS = [add_init, add_exit, add_enter, cb_register, cb_unregister, cb_enter, cb_exit, exit_keeps_outer]
+# ---- local_callbacks: the context manager every scheduler call runs in (a @contextmanager generator)
+yield_body = Contract(
+    MODULE, "yield_body", assumed=True,
+    params={}, free={"Callback": CallbackCls, "G0": T.Bool}, frame=["Callback"],
+    requires=[("C05-only-the-outermost-scheduler-sees-the-global-callbacks", "implies(G0, Callback.active == EMPTYCB)")],
+    ensures=[("body-restores", "Callback.active == old(Callback.active)")],
+    raises=[("BaseException", "body_raises(Callback.active)", "the scheduler run may fail")],
+    raises_post={"BaseException": [("body-restores-on-failure", "Callback.active == old(Callback.active)")]},
+    note="ASSUMED contract of the with-body (a scheduler run): it leaves Callback.active as it found it, also when it raises -- for callback "
+         "contexts opened inside that is the stack property proved above, for nested scheduler calls it is this very contract (induction on nesting depth)",
+)
+
+local_cbs = Contract(
+    MODULE, "local_callbacks",
+    params={"callbacks": T.Opt(T.Seq(Cb))},
+    defaults={"callbacks": "None"},
+    free=FREE, frame=["Callback"],
+    locals={"global_callbacks": T.Bool, "G0": T.Bool},
+    ensures=[("C05-scheduler-call-leaves-the-active-set-as-it-was", "Callback.active == old(Callback.active)")],
+    raises=[("BaseException", "True", "whatever the body raised")],
+    raises_post={"BaseException": [("C05-active-set-restored-when-the-scheduler-fails", "Callback.active == old(Callback.active)")]},
+    ghost=[("after", "global_callbacks = callbacks is None", "G0 = global_callbacks")],
+    note="`yield` = call of the assumed with-body contract; the yielded value (`callbacks or ()`) is not interpreted",
+)
+
+CONTRACTS = [add_init, add_exit, add_enter, cb_register, cb_unregister, cb_enter, cb_exit, exit_keeps_outer, yield_body, local_cbs]
 
 
 def model_normalize(eng, st, node, want):
@@ -145,6 +170,9 @@ def method_via_contract(contract):
 
 
 def setup(eng):
+    eng.consts["EMPTYCB"] = SV(SetCb.empty(), SetCb)
+    eng.funcs["yield_body"] = FuncVal("yield_body", "contract", yield_body)
+    eng.funcs["body_raises"] = FuncVal("body_raises", "uf", (z3.Function("body_raises", SetCb.sort(), z3.BoolSort()), T.Bool, [SetCb]))
     eng.spec_types["Cb"] = Cb
     eng.mutable_records.update({"CallbackCls", "add_callbacks_obj", "CallbackObj"})
     eng.funcs["normalize_callback"] = FuncVal("normalize_callback", "model", model_normalize)
